@@ -76,8 +76,12 @@ package dns
 //@   ensures atleast: len(ret0) >= length
 //@   fresh
 //@   pure
-//@ func sign [C18 C10]
+// the signature of the RSA algorithms (5, 7, 8, 10) and of Ed25519 (15) is what the signer returned; ErrAlg is for
+// none of the seven signing algorithms
+//@ func sign [C18 C10 C17]
 //@   opt no-safety
+//@   assert at "return nil, ErrAlg" badalg: alg != 5 && alg != 7 && alg != 8 && alg != 10 && alg != 13 && alg != 14 && alg != 15
+//@   assert at "return signature, nil@1" raw: alg == 5 || alg == 7 || alg == 8 || alg == 10 || alg == 15
 //@   pure
 
 // the "hash" of the algorithms that sign the message itself (Ed25519): what was written comes back unchanged,
